@@ -43,6 +43,7 @@ pub fn run_one(
         Ok(mut world) => {
             // genesis itself is judged by the monitors too; a violation there is reported
             let swarm = match profile.name {
+                "TX" => Swarm::tx(&mut rng, profile.faults),
                 _ => Swarm::mkt(&mut rng, profile.faults),
             };
             let steps = rng.range(50, 400);
